@@ -2,6 +2,7 @@ import Verif.Props.C15
 import Verif.Lemmas.Client
 import Verif.Lemmas.Detect
 import Verif.Lemmas.Instances
+import Verif.Model.Block
 
 /-! # C15 — supplementary obligations (not stated by the property text)
 
@@ -326,5 +327,43 @@ example :
   ⟨rfl, c15_stdio_instances _ _ 1⟩
 
 end instances
+
+/-! ## What leaves the carrier's block
+
+The request helpers run inside the carrier's own `async with` block; an exception they raise and
+the block does not catch goes through the context manager's exit (`Model/Block.lean`).  The check
+lets the last helper's exception leave the block on every carrier and compares what the caller of
+the block sees (`escape`), with error messages drawn from the phrases the transports match on. -/
+section block
+open Verif.Model.Block Verif.Model.Label
+
+/-- **An error reply leaves the block whatever its text**, when the exit decides by class first:
+the same as on a carrier whose exit does not look at the exception at all. -/
+theorem c15_block_error_leaves (phrases : List (List Char)) (t : List Char) (o : Option Exc)
+    (h : ∀ e, o = some e → e.cls ≠ .runtime) :
+    leaves (specExit phrases) o = leaves plainExit o
+      ∧ leaves (specExit phrases) (some ⟨.rpcError, t⟩) = some ⟨.rpcError, t⟩ := by
+  refine ⟨?_, by simp [leaves, specExit]⟩
+  cases o with
+  | none => rfl
+  | some e =>
+    have := h e rfl
+    simp [leaves, specExit, plainExit, this]
+
+/-- **The defect class**: an exit that decides by the text alone swallows every error reply whose
+message mentions one of its phrases — the block ends normally on that carrier only. -/
+theorem c15_block_text_exit_swallows (phrases : List (List Char)) (c : Cls) (t : List Char)
+    (h : mentions phrases t = true) :
+    leaves (textExit phrases) (some ⟨c, t⟩) = none ∧ leaves plainExit (some ⟨c, t⟩) = some ⟨c, t⟩ := by
+  simp [leaves, textExit, plainExit, h]
+
+/-- non-vacuity: the error reply `-32000 "Upstream CANCEL SCOPE mismatch"` -/
+example : leaves (textExit ["cancel scope".toList]) (some ⟨.rpcError, "Upstream CANCEL SCOPE mismatch".toList⟩) = none
+    ∧ leaves (specExit ["cancel scope".toList]) (some ⟨.rpcError, "Upstream CANCEL SCOPE mismatch".toList⟩)
+        = some ⟨.rpcError, "Upstream CANCEL SCOPE mismatch".toList⟩
+    ∧ leaves (specExit ["cancel scope".toList]) (some ⟨.runtime, "Attempted to exit cancel scope in a different task".toList⟩) = none := by
+  decide
+
+end block
 
 end Verif.Props.C15
